@@ -4,6 +4,7 @@ import CogentModel.Model.PhyloNewick
 import CogentModel.Model.PhyloTreeDist
 import CogentModel.Model.PhyloMidpoint
 import CogentModel.Model.PhyloNewickStr
+import CogentModel.Model.PhyloNames
 import CogentModel.Spec.PhyloSplits
 open CogentModel CogentModel.Phylo
 
@@ -130,6 +131,24 @@ def handle (cmd : String) (j : J) : Except String J :=
   | "printstr" => do
     let t ← treeOfJ (← j.get "tree")
     pure (J.str (String.ofList (newickStr t)))
+  | "rtname" => do
+    -- the decidable class of names and the modelled round trip of one name beside a plain tip
+    let n := (← (← j.get "name").toStr).toList
+    pure (J.obj [("ok", J.bool (roundTrips n)),
+                 ("back", match nameRoundTrip n with | some m => J.str m | none => J.null),
+                 ("written", J.str (String.ofList (escapeName n)))])
+  | "names" => do
+    -- TreeBuilder naming of a label list in creation order (null = no label)
+    let ls ← (← j.get "labels").toList
+    let labels ← ls.mapM fun x => match x with
+      | J.null => pure none
+      | y => do pure (some (← y.toStr))
+    pure (J.obj [("builder", J.arr ((assignNames labels).map J.str)),
+                 ("make_tree", J.arr ((makeTreeNames labels).map J.str))])
+  | "spaces" => do
+    -- every code point the model's `pySpace` accepts (compared with str.isspace over all of Unicode)
+    let hi ← (← j.get "upto").toNat
+    pure (J.arr (((List.range hi).filter fun n => (n < 0xD800 || 0xDFFF < n) && pySpace (Char.ofNat n)).map fun n => J.num (Int.ofNat n)))
   | _ => throw s!"unknown command {cmd}"
 
 def main : IO Unit := driverLoop handle
